@@ -29,7 +29,7 @@ import zlib
 
 from . import refcell
 from .reftlb import (T, Record, Union, U, I, Bool, Bytes, Maybe, Ref, RefCell, AnyRest, HashmapE, Hashmap, HashmapAugE,
-                     ULe, Range, Const, Cond, Grams, BinTree as _BinTree, Bld, Rd, Ctx, Trk, ModelError, DecodeError,
+                     ULe, Range, Const, Cond, Grams, VarU, BinTree as _BinTree, Bld, Rd, Ctx, Trk, ModelError, DecodeError,
                      to_cell, from_cell, diff, _res, cell_to_plain, plain_to_cell)
 from .tlb_msg import CurrencyCollection, ExtraCurrencyCollection
 
@@ -185,8 +185,20 @@ CTORS['bt_leaf'] = ('BinTree', 'bt_leaf$0')
 CTORS['bt_fork'] = ('BinTree', 'bt_fork$1')
 
 
-def shard_hashes(descr=ShardDescr, **kw):
+def bin_tree_pruned(x):
+    """BinTree X whose sub-trees may be pruned branches (cells of a Merkle update, real block only)"""
+    box = []
+    t = Union('BinTree', [Record('bt_leaf', '0', [('leaf', x)]),
+                          Record('bt_fork', '1', [('left', Ref(lambda c: box[0], exotic_ok=True)),
+                                                  ('right', Ref(lambda c: box[0], exotic_ok=True))])])
+    box.append(t)
+    return t
+
+
+def shard_hashes(descr=ShardDescr, exotic_ok=False, **kw):
     """_ (HashmapE 32 ^(BinTree ShardDescr)) = ShardHashes;"""
+    if exotic_ok:
+        return HashmapE(32, Ref(bin_tree_pruned(descr), exotic_ok=True), pruned_ok=True, **kw)
     return HashmapE(32, Ref(_BinTree(descr)), **kw)
 
 
@@ -266,6 +278,22 @@ McStateExtra = rec('McStateExtra', 'masterchain_state_extra', '#cc26', [
                                ('block_create_stats', Cond(lambda c: c['flags'] & 1, BlockCreateStats))]))),
     ('global_balance', _CC)])
 
+
+def mc_state_extra_pruned(cc):
+    """McStateExtra as it appears inside a Merkle update (real block only): dictionaries and trees may be partly pruned"""
+    stats = Union('BlockCreateStats', [
+        Record('block_create_stats', '#17', [('counters', HashmapE(256, CreatorStats, pruned_ok=True))]),
+        Record('block_create_stats_ext', '#34', [('counters', HashmapAugE(256, CreatorStats, U(32), pruned_ok=True))])])
+    return Record('masterchain_state_extra', '#cc26', [
+        ('shard_hashes', shard_hashes(exotic_ok=True)),
+        ('config', Record('ConfigParams', '', [('config_addr', Bytes(32)),
+                                               ('config', Ref(Hashmap(32, RefCell, pruned_ok=True), exotic_ok=True))])),
+        (None, Ref(Record('', '', [('flags', Range(U(16), 0, 1)), ('validator_info', ValidatorInfo),
+                                   ('prev_blocks', HashmapAugE(32, KeyExtBlkRef, KeyMaxLt, pruned_ok=True)),
+                                   ('after_key_block', Bool), ('last_key_block', Maybe(ExtBlkRef)),
+                                   ('block_create_stats', Cond(lambda c: c['flags'] & 1, stats))]))),
+        ('global_balance', cc)])
+
 # ed25519_signature#5 R:bits256 s:bits256 = CryptoSignatureSimple;  _ CryptoSignatureSimple = CryptoSignature;
 CryptoSignatureSimple = rec('CryptoSignatureSimple', 'ed25519_signature', '#5', [('R', Bytes(32)), ('s', Bytes(32))])
 # certificate#4 temp_key:SigPubKey valid_since:uint32 valid_until:uint32 = Certificate;
@@ -331,23 +359,30 @@ def shard_account(account=Ref(AccountNone)):
 
 ShardAccount = shard_account()
 # depth_balance$_ split_depth:(#<= 30) balance:CurrencyCollection = DepthBalanceInfo;
-DepthBalanceInfo = rec('DepthBalanceInfo', 'depth_balance', '$_', [('split_depth', ULe(30)), ('balance', _CC)])
+def depth_balance(cc=_CC):
+    return rec('DepthBalanceInfo', 'depth_balance', '$_', [('split_depth', ULe(30)), ('balance', cc)])
+
+
+DepthBalanceInfo = depth_balance()
+# CurrencyCollection whose extra-currency dictionary may be a pruned branch (cells of a Merkle update, real block only)
+CurrencyCollectionPruned = Record('currencies', '$_', [('grams', Grams), ('other', Record('extra_currencies', '$_', [
+    ('dict', HashmapE(32, VarU(32), pruned_ok=True))]))])
 # true$_ = True;
 TrueT = rec('True', 'true', '$_', [])
 # shared_lib_descr$00 lib:^Cell publishers:(Hashmap 256 True) = LibDescr;
 LibDescr = rec('LibDescr', 'shared_lib_descr', '$00', [('lib', RefCell), ('publishers', Hashmap(256, TrueT, counts=(1, 1, 2)))])
 
 
-def shard_state_unsplit(account=Ref(AccountNone), custom=McStateExtra, exotic_ok=False, accounts_counts=(0, 1, 1, 2)):
+def shard_state_unsplit(account=Ref(AccountNone), custom=McStateExtra, exotic_ok=False, accounts_counts=(0, 1, 1, 2), cc=_CC):
     """shard_state#9023afe2 global_id:int32 shard_id:ShardIdent seq_no:uint32 vert_seq_no:# gen_utime:uint32 gen_lt:uint64
          min_ref_mc_seqno:uint32 out_msg_queue_info:^OutMsgQueueInfo before_split:(## 1) accounts:^ShardAccounts
          ^[ overload_history:uint64 underload_history:uint64 total_balance:CurrencyCollection
             total_validator_fees:CurrencyCollection libraries:(HashmapE 256 LibDescr) master_ref:(Maybe BlkMasterInfo) ]
          custom:(Maybe ^McStateExtra) = ShardStateUnsplit;
        _ (HashmapAugE 256 ShardAccount DepthBalanceInfo) = ShardAccounts;        ^OutMsgQueueInfo: an opaque cell"""
-    accounts = HashmapAugE(256, shard_account(account), DepthBalanceInfo, counts=accounts_counts, pruned_ok=exotic_ok)
-    group = Record('', '', [('overload_history', U(64)), ('underload_history', U(64)), ('total_balance', _CC),
-                            ('total_validator_fees', _CC),
+    accounts = HashmapAugE(256, shard_account(account), depth_balance(cc), counts=accounts_counts, pruned_ok=exotic_ok)
+    group = Record('', '', [('overload_history', U(64)), ('underload_history', U(64)), ('total_balance', cc),
+                            ('total_validator_fees', cc),
                             ('libraries', HashmapE(256, LibDescr, counts=(0, 0, 1, 2), pruned_ok=exotic_ok)),
                             ('master_ref', Maybe(BlkMasterInfo))])
     return rec('ShardStateUnsplit', 'shard_state', '#9023afe2', [
